@@ -190,7 +190,7 @@ func c19LE(c *core.Ctx) {
 			return
 		}
 		a, v := sx.Of(st.Addr).String(), sx.Of(st.Val).String()
-		if strings.Contains(a, "[loop{const(0)}]") && strings.Contains(v, "(*math/big.Int).Bytes(n)[((len((*math/big.Int).Bytes(n)) - const(1)) - loop{const(0)})]") {
+		if strings.Contains(a, "[(loop{const(-1)} + const(1))]") && strings.Contains(v, "(*math/big.Int).Bytes(n)[((len((*math/big.Int).Bytes(n)) - const(1)) - (loop{const(-1)} + const(1)))]") {
 			okStore = true
 		}
 	})
